@@ -505,7 +505,9 @@ func (peer *peer) llgrRestartTimerExpired(family bgp.Family) bool {
 			conf.AfiSafis[i].LongLivedGracefulRestart.State.PeerRestartTimerExpired = true
 		}
 		s := conf.AfiSafis[i].LongLivedGracefulRestart.State
-		if s.Received && !s.PeerRestartTimerExpired {
+		// a timer started in this long-lived phase is still pending (the family need not be
+		// in the LLGR capability of a session re-established meanwhile)
+		if s.Running && !s.PeerRestartTimerExpired {
 			all = false
 		}
 	}
